@@ -360,6 +360,18 @@ def record_layout(ctx):
     ctx.require(len(idx_uses) >= 4, '_unpack_stack: error-slot post-processing not found')
     for n in idx_uses:
         ctx.ob(n.slice.value == err_idx, u, 'post-processing addresses the error slot (%d): %s' % (err_idx, norm(n)), node=n)
+    # the linear shortcut: branches are dropped only when the one recorded branch *is* the last child
+    short = [n for n in u.own_nodes() if isinstance(n, ast.If) and len(n.body) == 1 and isinstance(n.body[0], ast.Assign)
+             and isinstance(n.body[0].value, ast.List) and not n.body[0].value.elts]
+    ctx.require(len(short) == 1, '_unpack_stack: single-branch shortcut not found')
+    t = short[0].test
+    bv = short[0].body[0].targets[0].id if is_name(short[0].body[0].targets[0]) else None
+    childs = [n.targets[0].id for n in u.own_nodes() if isinstance(n, ast.Assign) and is_name(n.targets[0])
+              and isinstance(n.value, ast.Subscript) and p.scope_key(u, n.value.slice) == 'core.LAST_CHILD_SCOPE']
+    ok = isinstance(t, ast.Compare) and is_name(t.left, bv) and isinstance(t.ops[0], ast.Eq) and isinstance(t.comparators[0], ast.List) \
+        and len(t.comparators[0].elts) == 1 and childs and is_name(t.comparators[0].elts[0], childs[0])
+    ctx.ob(ok, u, 'a level counts as linear only when its single recorded branch is the child that was followed: %s' % norm(t),
+           '' if ok else 'a failed branch other than the last child would vanish from the trace', node=short[0])
     # the first record slot is the frame's own map; branches only when more than the linear child
     r = ctx.unit('core.format_target_spec_trace')
     loops = [n for n in r.own_nodes() if isinstance(n, ast.For) and isinstance(n.iter, ast.Call)
